@@ -1,6 +1,6 @@
 #!/usr/bin/env bash
 # run every claimed check (quick or thorough) and summarise; validates the evidence files
-cd /verif
+cd "$(dirname "$0")/.." || exit 2
 TIER="${1:-quick}"
 for p in $(python3 -c "import json;print(' '.join(c['property_id'] for c in json.load(open('MANIFEST.json'))['checks']))"); do
   t0=$(date +%s)
@@ -12,7 +12,7 @@ done
 python3-vt - <<'PY'
 import json,jsonschema,glob
 sch=json.load(open('/root/.vp/EVIDENCE.schema.json'))
-for f in sorted(glob.glob('/verif/evidence/*.json')):
+for f in sorted(glob.glob('evidence/*.json')):
     try:
         jsonschema.validate(json.load(open(f)),sch)
     except Exception as e:
